@@ -18,10 +18,10 @@ import (
 func init() {
 	fw.Register(&fw.Prop{
 		ID: "C12",
-		Rule: "inputs: (1) exhaustive table orphans 1–4 × widows 1–4 × paragraph length 1–8 × room 0–8 lines after a leading block; (2) exhaustive table of break-after × break-before value pairs (10 × 10) in four nesting variants at a natural page end; (3) exhaustive table of vertical padding/border arrangements (8 arrangements of a decorated box, paragraph or fixed-height block between two blocks × 4 border/padding splits × 22 page heights 40..124px in steps of 4, so that the page bottom falls on every 4px of the decorated block); (4) random flows of 2–10 items, up to ~25 blocks (fixed-height empty blocks, Ahem paragraphs of 1–9 one-word lines with explicit px line-height, one level of nesting; zero vertical margins; in 35% of the documents boxes, paragraphs and fixed-height blocks carry top and/or bottom padding and borders of 4–12px (box-decoration-break: slice; bottom ones on fixed-height blocks only in table 3); 3% of the documents on pages lower than a line, 4% on A4 pages) with break-before/after/inside, orphans, widows, page names, and 0–6 @page rules (:first/:left/:right/:blank/named/:nth(), author and user origin, !important) setting size, margins, padding, page counters and an @bottom-center counter box; in 30% of the random documents 70% of the @page margin / padding values are written as percentages (40%) or in pt, pc, mm, cm, in, Q, em, or auto for margins (30%) instead of px, and 30% of the sizes in pt / pc; (5) exhaustive table of the page-box margin / padding value syntax: each of the 8 longhands and the margin / padding shorthands with 1–4 values × the units px, pt, pc, mm, cm, in, Q, em, %, and a mixed form (auto margins, percentages next to lengths) × a portrait, a landscape and a square sheet (percentages of top/bottom refer to the sheet height, of left/right to its width). " +
+		Rule: "inputs: (1) exhaustive table orphans 1–4 × widows 1–4 × paragraph length 1–8 × room 0–8 lines after a leading block; (2) exhaustive table of break-after × break-before value pairs (10 × 10) in four nesting variants at a natural page end; (3) exhaustive table of vertical padding/border arrangements (8 arrangements of a decorated box, paragraph or fixed-height block between two blocks × 4 border/padding splits × 22 page heights 40..124px in steps of 4, so that the page bottom falls on every 4px of the decorated block); (4) random flows of 2–10 items, up to ~25 blocks (fixed-height empty blocks, Ahem paragraphs of 1–9 one-word lines with explicit px line-height, one level of nesting; zero vertical margins; in 35% of the documents boxes, paragraphs and fixed-height blocks carry top and/or bottom padding and borders of 4–12px (box-decoration-break: slice; bottom ones on fixed-height blocks only in table 3); 3% of the documents on pages lower than a line, 4% on A4 pages) with break-before/after/inside, orphans, widows, page names, and 0–6 @page rules (:first/:left/:right/:blank/named/:nth(), author and user origin, !important) setting size, margins, padding, page counters and an @bottom-center counter box; in 30% of the random documents 70% of the @page margin / padding values are written as percentages (40%) or in pt, pc, mm, cm, in, Q, em, or auto for margins (30%) instead of px, and 30% of the sizes in pt / pc; (5) exhaustive table of the page-box margin / padding value syntax: each of the 8 longhands and the margin / padding shorthands with 1–4 values × the units px, pt, pc, mm, cm, in, Q, em, %, and a mixed form (auto margins, percentages next to lengths) × a portrait, a landscape and a square sheet (percentages of top/bottom refer to the sheet height, of left/right to its width); (6) exhaustive table of the page-box dimensions: width, height or both declared in px, %, pt or auto × each of the two margins of the axis as 0, a length, a percentage, auto or undeclared (5 × 5) × a portrait and a landscape sheet, with page padding; and in 12% of the random documents (drawn last) the @page rules also declare width and / or height of the page box (px, a percentage of the sheet, or auto; sometimes !important) and 35% of the margin values are auto, so that the cascade decides page by page between auto dimension, centred, one auto margin and over-constrained. " +
 			"A case is non-trivial when the laid-out document has at least two pages and at least one page end (forced or unforced) was decided by the break monitor; distinct = distinct input.",
 		N: func(tier string) int {
-			return nTables + nRandom(tier) + nUnit
+			return nTables + nRandom(tier) + nUnit + nDim
 		},
 		Gen:   genCase,
 		Check: check,
@@ -74,13 +74,31 @@ func init() {
 				"geometry_fields_from_other_units":              7000 * m,
 				"geometry_fields_from_auto_margin":              200 * m,
 				"pages_size_in_other_units":                     1300 * m,
+				// width / height of the page box (css-page-3 §5.3): the table is complete; documents whose
+				// @page rules declare a dimension; pages whose cascaded width / height is not auto; page
+				// axes (a page has two) compared in each case of the equation: both margins auto (centred),
+				// only margin-left/top auto, only margin-right/bottom auto — and among those the ones where
+				// the opposite margin is not 0, the only place where forgetting it shows —, no auto margin
+				// (over-constrained)
+				"kind_dim-table":                             nDim,
+				"docs_page_box_dimensions":                   500 * m,
+				"pages_declared_width":                       1500 * m,
+				"pages_declared_height":                      1800 * m,
+				"pages_declared_dimension_percentage":        1000 * m,
+				"page_axes_both_margins_auto":                700 * m,
+				"page_axes_first_margin_auto":                300 * m,
+				"page_axes_second_margin_auto":               350 * m,
+				"page_axes_second_margin_auto_first_nonzero": 300 * m,
+				"page_axes_one_margin_auto_other_nonzero":    550 * m,
+				"page_axes_over_constrained":                 1800 * m,
 			}
 		},
 		Assumptions: []string{
 			"flows are restricted to zero vertical margins, no floats, tables, footnotes, columns or absolutely positioned boxes (fragmentation of those has no closed-form expectation); vertical padding and borders are integer px with box-decoration-break: slice (clone is not generated)",
 			"css-break-3 §4.2: no break point separates the top padding/border of a box from its first child or line, nor its last child or line from its bottom padding/border (auto heights leave no class C gap), so these decorations travel with the first / last unit of the box and count in what must fit",
 			"four patterns of /repo around bottom padding/border at a page end are open findings (first box of a page; fixed-height block; fragment made by findEarlierPageBreak; second layout in a space reduced for every child): they are recognised by narrow signatures and reported as known, only when nothing else is wrong with the document; bottom padding/border on fixed-height blocks is kept out of the random flows (table 3 only)",
-			"@page margin / padding percentages refer to the page sheet given by `size`: its width for left/right, its height for top/bottom (css-page-3 page-based percentages, CSS 2.1 §13.2.1); absolute units convert as 1in = 96px = 72pt = 6pc = 2.54cm = 25.4mm = 101.6Q; em in the page context is the initial font-size, 16px (no font property is declared in the generated @page rules); auto margins of the page box are 0 (its width and height are auto). ex, ch, rem, vw/vh, calc() and size keywords are not generated",
+			"@page margin / padding percentages refer to the page sheet given by `size`: its width for left/right, its height for top/bottom (css-page-3 page-based percentages, CSS 2.1 §13.2.1); absolute units convert as 1in = 96px = 72pt = 6pc = 2.54cm = 25.4mm = 101.6Q; em in the page context is the initial font-size, 16px (no font property is declared in the generated @page rules); ex, ch, rem, vw/vh, calc() and size keywords are not generated",
+			"css-page-3 §5.3 (page-box page rule calculations), per axis, margin + padding + width|height + padding + margin = sheet size: with an auto dimension auto margins are 0 and the dimension follows; with a declared dimension two auto margins are equal, a single auto margin takes the rest (it may be negative), and without auto margin every value is used as declared (over-constrained: the page box then does not coincide with the sheet); a percentage width / height refers to the sheet width / height; min-/max-width/height and borders of the page box are not generated",
 			"open finding F-C12-page-bottom-float32-rounding: with a fractional page bottom a block that must be split on the page is sometimes moved whole to the next page (the float32 sum y + (pageBottom − y) rounds above pageBottom and overflowsPage has no effective fudge factor); recognised only when that float32 arithmetic, redone on the observed positions, does round above the page bottom, and reported as known",
 			"Ahem metrics: one 8-glyph word per line in a body of width 8em, explicit px line-height, so every line box is exactly line-height tall",
 			"where the specifications leave a choice (weight of :nth(); page name of a blank page; orphans counted per fragment or per box; which of two nested break-after sides wins; whether counter-reset:page suppresses the automatic increment) every reading is accepted",
@@ -376,6 +394,9 @@ func check(raw json.RawMessage) fw.Result {
 					how = " (a percentage of the sheet width for left/right, of the sheet HEIGHT for top/bottom: css-page-3 page-based percentages)"
 				case "auto":
 					how = " (auto margins of a page box with auto width/height are 0)"
+					if sv := gs[0].Solve[(k+1)%2]; sv != "" {
+						how = " (an auto margin next to a declared " + [2]string{"width", "height"}[(k+1)%2] + " of the page box follows from margin + padding + dimension + padding + margin = sheet size; css-page-3 §5.3, case " + sv + ")"
+					}
 				case "", "px":
 				default:
 					how = " (declared in " + unit + ")"
@@ -401,6 +422,44 @@ func check(raw json.RawMessage) fw.Result {
 		}
 		if su := gs[0].SU; su != "" && su != "px" {
 			res.Count("pages_size_in_other_units", 1)
+		}
+		// evidence: declared width / height of the page box and which case of css-page-3 §5.3 was
+		// compared (the ten numbers above agree with the reference at this point)
+		if len(gs) == 1 {
+			g := gs[0]
+			for ax, nm := range [2]string{"width", "height"} {
+				if g.DU[ax] == "" || g.DU[ax] == "auto" {
+					if g.DU[ax] == "auto" {
+						res.Count("pages_declared_"+nm+"_auto", 1)
+					}
+					continue
+				}
+				res.Count("pages_declared_"+nm, 1)
+				if g.DU[ax] == "%" {
+					res.Count("pages_declared_dimension_percentage", 1)
+				}
+				a, b := 3, 1 // left, right
+				if ax == 1 {
+					a, b = 0, 2 // top, bottom
+				}
+				switch g.Solve[ax] {
+				case "center":
+					res.Count("page_axes_both_margins_auto", 1)
+				case "first":
+					res.Count("page_axes_first_margin_auto", 1)
+					if math.Abs(g.Margin[b]) > 0.5 {
+						res.Count("page_axes_one_margin_auto_other_nonzero", 1)
+					}
+				case "second":
+					res.Count("page_axes_second_margin_auto", 1)
+					if math.Abs(g.Margin[a]) > 0.5 {
+						res.Count("page_axes_one_margin_auto_other_nonzero", 1)
+						res.Count("page_axes_second_margin_auto_first_nonzero", 1)
+					}
+				case "over":
+					res.Count("page_axes_over_constrained", 1)
+				}
+			}
 		}
 		if float64(p.PositionX) != 0 || float64(p.PositionY) != 0 {
 			res.Fail("page-geometry", sprintf("page %d is positioned at (%g,%g)", i+1, float64(p.PositionX), float64(p.PositionY)))
@@ -746,6 +805,9 @@ func check(raw json.RawMessage) fw.Result {
 	res.Count("kind_"+in.Kind, 1)
 	if in.hasUnits() {
 		res.Count("docs_page_values_with_units", 1)
+	}
+	if in.hasDims() {
+		res.Count("docs_page_box_dimensions", 1)
 	}
 	if in.Engine == "gotext" {
 		res.Count("engine_gotext", 1)
